@@ -7,3 +7,7 @@ import Lace.Props.C02
 import Lace.Props.C03
 import Lace.Model.Cli
 import Lace.Props.C06
+import Lace.Basic.Keys
+import Lace.Model.Editor
+import Lace.Spec.RefEditor
+import Lace.Props.C20
